@@ -18,11 +18,11 @@ func init() { register(c05{}) }
 
 func (c05) ID() string { return "C05" }
 func (c05) Rule() string {
-	return "location level: every location of gen.Universe(L<=6, arity<=3) plus seeded joins/orders of every arity 1..6 (nested under complement, all partial combinations, L<=40): loc.Reverse(L) must denote the mirror image (residue x->L-1-x, site g->L-g, parts in mirrored order, open ends swapped, nothing lost), Reverse.Reverse and Complement.Complement are identities (denotation and print). sequence level: gts.Reverse / gts.Complement on BasicSequence tables (bytes reversed / IUPAC-complemented by an independent table; every feature present once with mirrored / complemented location), Reverse and Complement involutions on residues, and extraction symmetry: for every feature Region().Locate on Reverse(Complement(rec)) yields the same bytes as on rec, and both equal the model extraction (residues at the base atoms in reading order, complemented on the reverse strand). non-trivial: the location has >=2 parts or a partial end or a site; distinct: canonical case text."
+	return "location level: every location of gen.Universe(L<=6, arity<=3) plus seeded joins/orders of every arity 1..6 (nested under complement, all partial combinations, L<=40): loc.Reverse(L) must denote the mirror image (residue x->L-1-x, site g->L-g, parts in mirrored order, open ends swapped, nothing lost), Reverse.Reverse and Complement.Complement are identities (denotation and print). sequence level: gts.Reverse / gts.Complement on BasicSequence tables (bytes reversed / IUPAC-complemented by an independent table; every feature present once with mirrored / complemented location), Reverse and Complement involutions on residues, and extraction symmetry: for every feature Region().Locate on Reverse(Complement(rec)) yields the same bytes as on rec, and both equal the model extraction (residues at the base atoms in reading order, complemented on the reverse strand). non-trivial: the location has >=2 parts or a partial end or a site; distinct: canonical case text. A fifth of the sequences hold residue bytes from 0x80 up (left alone by Complement, never lengthened)."
 }
 func (c05) RequiredBuckets(tier string) []string {
 	out := []string{"arity:1", "arity:2", "arity:3", "arity:4", "arity:5", "arity:6", "arity-parity:odd", "arity-parity:even",
-		"seq:reverse", "seq:complement", "seq:extract-symmetry", "loc:reverse-involution", "loc:complement-involution", "alphabet:acgt", "alphabet:unique-ids"}
+		"seq:reverse", "seq:complement", "seq:extract-symmetry", "loc:reverse-involution", "loc:complement-involution", "alphabet:acgt", "alphabet:unique-ids", "alphabet:bytes-beyond-ascii"}
 	for _, k := range []string{"point", "site", "range", "prange", "ambiguous", "join", "order", "c-range", "c-join", "c-order"} {
 		out = append(out, "kind|"+k)
 	}
@@ -445,7 +445,17 @@ func (m c05) Run(c *fw.Ctx) {
 		tab := gen.RandTable(r, r.Intn(8), o, "h", 10)
 		alpha := "unique-ids"
 		var hostB []byte
-		if r.Intn(2) == 0 {
+		if ak := r.Intn(5); ak == 0 {
+			// residue bytes beyond ASCII (no valid UTF-8): they are residues like
+			// any other, left alone by Complement.
+			alpha = "bytes-beyond-ascii"
+			hostB = gen.UniqueBytes(60, L)
+			for i := range hostB {
+				if i%3 == 1 {
+					hostB[i] = "acgtuACGTN"[i%10]
+				}
+			}
+		} else if ak <= 2 {
 			alpha = "acgt"
 			hostB = make([]byte, L)
 			const letters = "ACGTacgtRYKMSWBDHVNU"
